@@ -443,7 +443,7 @@ class _WState(object):
                 return []
             then = self.block(s.body)
             orelse = self.block(s.orelse)
-            return [Item('cond', guard=norm(self.subst(canon_test(s.test))), then=then, orelse=orelse, node=s, test=canon_test(s.test))]
+            return [cond_item(s.test, then, orelse, s, self.subst)]
         if isinstance(s, ast.For):
             if not any(_touches(x, st) for st in self.streams for x in s.body) and not self._writes_buf(s):
                 return []
@@ -840,7 +840,7 @@ class _RState(object):
                 return []
             then = self.block(s.body)
             orelse = self.block(s.orelse)
-            return [Item('cond', guard=norm(self.subst(canon_test(s.test))), then=then, orelse=orelse, node=s, test=canon_test(s.test))]
+            return [cond_item(s.test, then, orelse, s, self.subst)]
         if isinstance(s, ast.For):
             if not any(_touches(x, self.stream) for x in s.body):
                 return []
@@ -1163,16 +1163,37 @@ def canon_test(t):
             return t
 
 
+def cond_item(test, then, orelse, node, subst):
+    """a conditional item with its guard in the linear normal form; `x < N` guards are stored as their complement
+    `x > N-1` with the arms swapped, so that the two spellings of one version threshold give one item"""
+    t = canon_test(test)
+    try:
+        from .rules import canon_text
+        g = canon_text(norm(subst(t)))
+    except Exception:
+        g = norm(subst(t))
+    import re as _r
+    m = _r.match(r'^(.+) < (-?\d+)$', g)
+    if m and ' or ' not in g and ' and ' not in g:
+        g = '%s > %d' % (m.group(1), int(m.group(2)) - 1)
+        then, orelse = orelse, then
+        t = ast.UnaryOp(op=ast.Not(), operand=t)
+    return Item('cond', guard=g, then=then, orelse=orelse, node=node, test=t)
+
+
 def _gkey(c):
-    """(text of the guard without a leading `not`, polarity)"""
-    t = c.get('test')
-    if t is None:
-        g = c.guard
+    """(one of the two canonical texts `g` / `not g` chosen as the key, polarity of this conditional w.r.t. the key)"""
+    g = c.guard
+    try:
+        from .rules import canon_text
+        pos = canon_text(g)
+        neg = canon_text(g, negate=True)
+    except Exception:
         return (g[4:], False) if g.startswith('not ') else (g, True)
-    t = canon_test(t)
-    if isinstance(t, ast.UnaryOp) and isinstance(t.op, ast.Not):
-        return (norm(canon_test(t.operand)), False)
-    return (norm(t), True)
+    # prefer the conjunction / the form without a leading `not` as the key
+    def rank(t):
+        return (t.startswith('not '), ' or ' in t, t)
+    return (pos, True) if rank(pos) <= rank(neg) else (neg, False)
 
 
 def _copy_item(i):
@@ -1229,8 +1250,10 @@ def _merge_guards(items):
             # positive polarity for the merged conditional
             new.guard = base
             new.then, new.orelse = new.orelse, new.then
-            t = canon_test(c.get('test')) if c.get('test') is not None else None
-            new.test = canon_test(t.operand) if isinstance(t, ast.UnaryOp) and isinstance(t.op, ast.Not) else t
+            try:
+                new.test = ast.parse(base, mode='eval').body
+            except SyntaxError:
+                pass
         for br in ('then', 'orelse'):
             seq = getattr(new, br)
             for k, x in enumerate(seq):
@@ -1646,9 +1669,11 @@ def canon_reader(items, notes):
                 continue
         if i.kind == 'cond':
             g = _strip_recv(i.guard)
-            m = _re.match(r'^nVersion >= (\d+)$', g)
+            m = _re.match(r'^nVersion >= (\d+)$', g) or _re.match(r'^nVersion > (\d+)$', g)
             if m:
                 notes.append('version gate `%s`: compared under "the version carries the field"' % i.guard)
+                thr = int(m.group(1)) + (1 if ' > ' in g else 0)
+                notes.append(('gate', thr, [x.get('field') or x.get('var') for x in i.then if x.kind not in ('cond',)], i))
                 out.extend(canon_reader(i.then, notes))
                 k += 1
                 continue
